@@ -438,6 +438,14 @@ def sg_no_raw(prog: Program) -> RuleResult:
     return r
 
 
+def _pd_field(prog):
+    # a relation is registered in the relation index under its field and purged under its field: the two are the same key only if the
+    # relation carries its final field from the moment it is built
+    from .c15 import pd_field
+
+    return pd_field(prog)
+
+
 def _stream_lazy(prog):
     # a variable that was only built must not hold the instances its domain would range over: the domain stream is stored, not read
     from .c10 import stream_lazy
@@ -450,4 +458,4 @@ def run(prog: Program, tier: str) -> List[RuleResult]:
 
     return [strong_ref(prog), weak_wrapper(prog), c14.sg_coherence(prog), c14.idkey(prog), c14.sg_purge_directions(prog), c13.sg_sweep(prog), _stream_lazy(prog),
             # an edge whose payload was overwritten leaves its pair in the relation index for good
-            c14.rel_edges(prog), sg_no_raw(prog)]
+            c14.rel_edges(prog), sg_no_raw(prog), _pd_field(prog)]
